@@ -11,6 +11,7 @@ import (
 	"io"
 	"log/slog"
 	"regexp"
+	"strings"
 	"time"
 
 	// imports required for go-digest
@@ -205,6 +206,10 @@ func indexIngest(repo Repo, index *types.Index, conf config.Config, locked bool)
 				continue
 			}
 			valid, refSubj, refResp := indexValidReferrer(repo, curResp, locked)
+			// the response can only be used as is for the subject named by the tag
+			if valid && refSubj.String() != strings.Replace(desc.Annotations[types.AnnotRefName], "-", ":", 1) {
+				valid = false
+			}
 			// check for a different response already in the index
 			if valid {
 				if resp, ok := referrerResponse[refSubj.String()]; ok && resp.Digest != desc.Digest {
@@ -218,6 +223,8 @@ func indexIngest(repo Repo, index *types.Index, conf config.Config, locked bool)
 					types.AnnotReferrerSubject: refSubj.String(),
 				}
 				index.AddDesc(newDesc)
+				// referrers to this subject listed by other fallback tags are merged with this response
+				referrerResponse[refSubj.String()] = newDesc
 				mod = true
 			}
 			// if the response cannot be quickly converted, save for later
